@@ -156,6 +156,45 @@ theorem C12_rollback_restores_any_retained_height (J : Nat → List Item) (dbt :
   (rollback_spec J l l2 t n hn hm hj hr b).trans
     (revertBlocks_commitBlocks (blocksOf J t n) dbt l.db hcoh hsame b)
 
+/-- **the state-root chain continues from the target's root**: after a successful `RollbackState(t)` over `n ≥ 1` retained heights
+the ledger is at height `t`, the root the next block is chained to is the root recorded in the journal of height `t` (the root that
+block's `FlushDirtyData` computed; the zero root for `t = 0`), that journal is still there and the journals of the heights above
+are gone — so the next flush hashes `prev = root(t)` (`C10_prev_root_in_preimage`) and a block executed again on the restored
+state (`C12_rollback_restores_any_retained_height`) gets the root it got the first time -/
+theorem C12_rollback_continues_root_chain (J : Nat → List Item) (l l2 : L) (t n : Nat) (hn : 0 < n) (hm : l.maxJ = t + n)
+    (hj : ∀ j, t < j → j ≤ t + n → ∃ bj, KV.get l.db.journals j = some bj ∧ bj.entries = (J j).map (fun p => entryOf p.1 p.2))
+    (hr : rollback l t = .ok l2) :
+    l2.maxJ = t ∧ l2.accounts = [] ∧
+    (t = 0 → l2.prevRoot = zeroRoot) ∧
+    (t ≠ 0 → ∃ bj, KV.get l.db.journals t = some bj ∧ KV.get l2.db.journals t = some bj ∧ l2.prevRoot = bj.root) ∧
+    ∀ (H : RootPre → String), (flush H l2).2.pre.prev = l2.prevRoot := by
+  obtain ⟨db', hl, _, hjs⟩ := rollbackLoop_spec J t n l.db hj
+  unfold rollback at hr
+  have h1 : ¬ l.maxJ < t := by omega
+  have h3 : ¬ l.maxJ = t := by omega
+  simp only [h1, if_false, h3] at hr
+  split at hr
+  · cases hr
+  · simp only [hm, Nat.add_sub_cancel_left, hl] at hr
+    simp only [Bool.not_true, Bool.false_eq_true, if_false] at hr
+    split at hr
+    · rename_i ht0
+      split at hr
+      · rename_i bj hbj
+        injection hr with hr
+        subst hr
+        refine ⟨rfl, rfl, fun e => absurd e ht0, fun _ => ⟨bj, ?_, hbj, rfl⟩, fun H => rfl⟩
+        rw [← hjs t (Nat.le_refl _)]; exact hbj
+      · cases hr
+    · rename_i ht0
+      injection hr with hr
+      subst hr
+      have : t = 0 := by
+        by_cases e : t = 0
+        · exact e
+        · exact absurd e ht0
+      exact ⟨this.symm ▸ rfl, rfl, fun _ => rfl, fun e => absurd this e, fun H => rfl⟩
+
 /-! non-vacuity: a ledger at height 3 whose block changes the balance and nonce of account 1, deletes its key `k`, creates
 its key `k2` and creates account 2 meets the hypotheses; the commit as height 4 and the rollback to 3 both succeed -/
 section Example
